@@ -599,6 +599,8 @@ class WGen:
         consistency levels below / at / above the floor, in blocks on both sides of max(cl, 205) * 16 s, on the polling path
         and on the re-observation path; non-transfers of the same lengths next to them follow cl * 16 s."""
         r = self.r
+        if r.random() < 0.3:
+            return self.xfer_mixed()
         self.new(mainnet=r.random() < 0.85, page=r.choice([1, 2, 3, 5]))
         self.toks()
         pre = r.random() < 0.3               # emitted before the watcher starts: re-observation alone
@@ -624,6 +626,40 @@ class WGen:
             self.op(op="req", tx=e["tx"])
         self.step(None)
         self.raise_height(1)
+        return finish_scenario(self.sc, "gen", "xfer")
+
+    def xfer_mixed(self):
+        """One block that carries a non-transfer (attestation or other message) AND a token transfer with the SAME
+        consistency level below the floor, in either order, old enough for the level but not for the floor: the
+        confirmation rule is per message, the neighbour's answer must not be reused for the transfer."""
+        r = self.r
+        self.new(mainnet=r.random() < 0.9, page=r.choice([1, 2, 5]))
+        self.toks()
+        self.step("count", 1)
+        cl = r.choice([0, 1, 2, 10, 50])
+        b = self.block(ts=r.choice([-1000, -1000, -3000, -100 if cl < 5 else -1000]))
+        evs = []
+        tx = "shared" if r.random() < 0.4 else None
+
+        def nontransfer():
+            if r.random() < 0.6:
+                return self.good(b, kind="attest", tok="t1", claim="m1", cl=cl, **({"tx": evs[0]["tx"]} if (tx and evs) else {}))
+            return self.good(b, kind="other", plen=r.choice([101, 133]), cl=cl, **({"tx": evs[0]["tx"]} if (tx and evs) else {}))
+
+        def transfer():
+            return self.transfer(b, cl=cl, **({"tx": evs[0]["tx"]} if (tx and evs) else {}))
+        order = r.choice(["nt", "nt", "tn", "ntn", "ntt"])
+        for ch in order:
+            evs.append(nontransfer() if ch == "n" else transfer())
+        self.raise_height(300)
+        for _ in range(3):
+            self.step(None)
+            self.raise_height(1)
+        if r.random() < 0.4:
+            self.step(None)
+            self.op(op="req", tx=evs[-1]["tx"])
+            self.step(None)
+            self.raise_height(1)
         return finish_scenario(self.sc, "gen", "xfer")
 
     def lag(self):
@@ -788,6 +824,8 @@ class WGen:
         r = self.r
         if r.random() < 0.5:
             return self.apifail_reobs()
+        if r.random() < 0.35:
+            return self.apifail_midpage()
         self.new()
         self.toks()
         self.old_events()
@@ -811,6 +849,33 @@ class WGen:
         self.good(nb, cl=0)
         self.step(None)
         self.raise_height(2)
+        return finish_scenario(self.sc, "gen", "apifail")
+
+    def apifail_midpage(self):
+        """A node API error on a page request that is not the first one of a multi-page poll: pages already read must
+        neither be lost nor handed over twice, whether Run ends (and is restarted) or carries on."""
+        r = self.r
+        page = r.choice([1, 1, 2])
+        self.new(page=page)
+        self.toks()
+        self.old_events()
+        self.step("count", 1)
+        b = self.block(ts=-5000)
+        n = r.choice([page + 1, 2 * page, 2 * page + 1, 3 * page + 1])
+        for _ in range(n):
+            self.good(b, cl=r.choice([0, 0, 1]))
+        pages = (n + page - 1) // page
+        self.step("page", r.randrange(1, pages))        # after the k-th page request, k < number of pages
+        self.op(op="failnext", route="page")
+        for _ in range(4):
+            self.step(None)
+            self.raise_height(r.choice([1, 2]))
+        if r.random() < 0.6:
+            self.step(None)
+            b3 = self.block(ts=-5000)
+            self.good(b3, cl=0)
+            self.step(None)
+            self.raise_height(2)
         return finish_scenario(self.sc, "gen", "apifail")
 
     def race(self):
